@@ -3220,7 +3220,53 @@ func ruleUncompressNoPanic(c *Check, p *Program, rule string) {
 			return f.Pkg == fn.Pkg && isHelper(f) && len(f.Blocks) <= 12
 		},
 		afterCall: func(g *goProg, a *AbsState, call *ssa.Call, f *ssa.Function) {
-			if f == nil || f.Pkg == nil || !strings.HasSuffix(f.Pkg.Pkg.Path(), "internal/lz4block") || f.Name() != "UncompressBlock" || len(call.Call.Args) < 2 {
+			if len(call.Call.Args) < 2 {
+				return
+			}
+			// the block decoder, or a decoder picked through a function value: each candidate is the block decoder or
+			// a function whose count is what copy(dst, ...) returned
+			bounded := func(h *ssa.Function) bool {
+				if h == nil || h.Pkg == nil {
+					return false
+				}
+				if strings.HasSuffix(h.Pkg.Pkg.Path(), "internal/lz4block") && h.Name() == "UncompressBlock" {
+					return true
+				}
+				if !inModule(h) || len(h.Params) < 2 || len(h.Blocks) > 3 {
+					return false
+				}
+				ok, n := true, 0
+				allInstrs(h, func(in ssa.Instruction) {
+					r, isR := in.(*ssa.Return)
+					if !isR || len(r.Results) == 0 {
+						return
+					}
+					n++
+					cc, isC := r.Results[0].(*ssa.Call)
+					if !isC {
+						ok = false
+						return
+					}
+					bi, isB := cc.Call.Value.(*ssa.Builtin)
+					if !isB || bi.Name() != "copy" || cc.Call.Args[0] != ssa.Value(h.Params[1]) {
+						ok = false
+					}
+				})
+				return ok && n > 0
+			}
+			good := bounded(f)
+			if f == nil {
+				if ph, isPhi := call.Call.Value.(*ssa.Phi); isPhi && !call.Call.IsInvoke() {
+					good = len(ph.Edges) > 0
+					for _, e := range ph.Edges {
+						hf, isF := e.(*ssa.Function)
+						if !isF || !bounded(hf) {
+							good = false
+						}
+					}
+				}
+			}
+			if !good {
 				return
 			}
 			if v, has := a.vals[g.k(call)+"#0"]; has {
